@@ -489,6 +489,35 @@ def check_key_dir(rep, ctx):
         rep.add(Query("acl_directory path %d: chown and chmod 0700 are applied to the directory given" % i, "holds" if ok_ch and ok_sp and ok_mode else "violated",
                       "chown %s set_permissions %s mode %s" % (ok_ch, ok_sp, oct(mode) if mode is not None else None), 0, "mirsym+z3", key="C12.keydir:mode-0700", reproduced=None))
     rep.functions_encoded.append(pa)
+    # the key folder comes into being only where it is restricted: nothing on the way to a key file (the key step of the poll loop with the
+    # store / fetch / check helpers inlined) creates a directory - a folder re-created there would hold the key file with the process umask
+    import p_c08
+    eng8, paths8 = p_c08.key_section(ctx, rep)
+    MK = re.compile(r"(^|::)(try_create_folder|create_dir_all|create_dir|DirBuilder::create)$")
+    makers = sorted({e.callee.split("::")[-1] for r in paths8 for e in r.events if e.kind in ("call", "await") and MK.search(e.callee)})
+    # helpers that are new since the obligations were written and stayed uninterpreted are looked into
+    import callgraph
+    cg = callgraph.CallGraph(ctx.idx)
+    cg.set_src(ctx.src)
+    bf = os.path.join(os.path.dirname(os.path.abspath(__file__)), "baseline_fn_names.txt")
+    baseline = set(open(bf).read().split()) if os.path.exists(bf) else set()
+    for callee in sorted(eng8.uninterpreted):
+        if callgraph.last_seg(callee) in baseline:
+            continue
+        try:
+            c = cg.resolve(callee, body)
+        except Exception:
+            c = []
+        if len(c) == 1:
+            try:
+                e3 = ctx.engine(loop_bound=1, max_paths=2000, timeout=60)
+                e3.auto_inline = ctx.new_function_auto()
+                for r in e3.explore(next(iter(c))):
+                    makers += [e.callee.split("::")[-1] + " (in %s)" % callgraph.last_seg(callee) for e in r.events if e.kind in ("call", "await") and MK.search(e.callee)]
+            except Inconclusive:
+                pass
+    rep.add(Query("key step: no directory is created on the way to a key file (the key folder exists only as created and restricted before the poll loop)", "holds" if not makers else "violated",
+                  "directory-creating calls in the key step: %s" % sorted(set(makers)), 0, "mirsym", key="C12.keydir:created-only-restricted", reproduced=None))
 
 
 def replay(path):
